@@ -1,13 +1,437 @@
-//! C08 — not implemented yet (stub so that props/mod.rs never has to change).
-use crate::engine::PropSpec;
+//! C08 — Pack files, their headers and the index always agree; the index is rebuildable.
+//!
+//! Sub "packs": histories of pack-producing commands (backup, prune-repack in all flavours, copy,
+//! merge, rewrite, repair) — after every operation every pack in storage is decoded with the
+//! independent decoder and compared with what the index says about it; then a generated subset of
+//! index files is deleted, `repair_index` runs and every snapshot must read back, `check` must be
+//! clean and the rebuilt index must describe exactly the surviving packs.
+//! Sub "header": the library's pack header codec against the independent one on generated entries.
+
+use std::{collections::BTreeMap, sync::Arc};
+
+use proptest::prelude::*;
+use rustic_core::{FileType, RewriteOptions, RewriteTreesOptions, repofile::IndexBlob};
+use serde::{Deserialize, Serialize};
+use vpcore::fmt::{BType, Id32, TrailerEntry, header_plain, parse_header_plain, parse_id};
+
+use crate::{
+    cmds,
+    engine::{Ctx, DynSub, Outcome, PropSpec, Sub, guarded, pick_idx},
+    r#gen::tree,
+    history::{HOp, World, hop},
+    inspect::{index_view, pack_ids, pack_verified, to_id},
+    membe::{Storage, id_bytes},
+    model::MNode,
+    repo::{CheckVerdict, RepoCfg, init_repo, repo_cfg},
+};
+
+#[derive(Debug, Clone, Copy, Serialize, Deserialize, PartialEq, Eq)]
+pub enum Extra {
+    /// copy all snapshots into a second repository (its packs are verified too)
+    Copy,
+    /// merge all live snapshots
+    Merge,
+    /// rewrite all snapshots excluding `*.log`-like names (basename = a generated existing name)
+    Rewrite(u16),
+    /// repair snapshots (undamaged: must not write packs, still verified)
+    Repair,
+}
+
+#[derive(Debug, Clone, Serialize, Deserialize)]
+pub struct Case {
+    pub cfg: RepoCfg,
+    pub dst_cfg: RepoCfg,
+    pub tree: MNode,
+    pub ops: Vec<HOp>,
+    pub extras: Vec<Extra>,
+    /// which index files are deleted before repair-index: bit i of the mask (cycled); 0 = all
+    pub del_mask: u16,
+    pub read_all: bool,
+}
+
+fn strategy(ctx: &Ctx) -> BoxedStrategy<Case> {
+    let len = if ctx.tier.is_thorough() { 12 } else { 6 };
+    (repo_cfg(), repo_cfg())
+        .prop_flat_map(move |(cfg, mut dst_cfg)| {
+            if dst_cfg.key_seed == cfg.key_seed {
+                dst_cfg.key_seed += 1;
+            }
+            let mut p = super::c07::params(&cfg);
+            p.file_cap = 150_000;
+            (
+                Just(cfg),
+                Just(dst_cfg),
+                tree(p),
+                prop::collection::vec(
+                    hop(p, true).prop_filter("no stale-handle op here", |o| !matches!(o, HOp::PruneThenStaleBackup { .. })),
+                    1..=len,
+                ),
+                prop::collection::vec(
+                    prop_oneof![Just(Extra::Copy), Just(Extra::Merge), any::<u16>().prop_map(Extra::Rewrite), Just(Extra::Repair)],
+                    0..3,
+                ),
+                prop_oneof![2 => Just(0u16), 3 => any::<u16>()],
+                prop::bool::weighted(0.2),
+            )
+        })
+        .prop_map(|(cfg, dst_cfg, tree, ops, extras, del_mask, read_all)| Case {
+            cfg,
+            dst_cfg,
+            tree,
+            ops,
+            extras,
+            del_mask,
+            read_all,
+        })
+        .boxed()
+}
+
+/// every pack in the storage is self-describing and agrees with the index
+pub fn verify_packs(storage: &Arc<Storage>, key: &[u8; 64], require_indexed: bool) -> Result<(usize, usize), String> {
+    let view = index_view(storage, key)?;
+    // index entries per pack, straight from the decoded files (packs and packs_to_delete)
+    let mut listed: BTreeMap<Id32, Vec<Vec<(BType, Id32, u32, u32, Option<u32>)>>> = BTreeMap::new();
+    let mut sizes: BTreeMap<Id32, Vec<Option<u32>>> = BTreeMap::new();
+    for f in view.files.values() {
+        for p in f.packs.iter().chain(f.packs_to_delete.iter()) {
+            let pid = parse_id(&p.id).ok_or("bad pack id")?;
+            let blobs = p
+                .blobs
+                .iter()
+                .map(|b| {
+                    Ok((
+                        BType::parse(&b.tpe).ok_or("bad type")?,
+                        parse_id(&b.id).ok_or("bad blob id")?,
+                        b.offset,
+                        b.length,
+                        b.uncompressed_length,
+                    ))
+                })
+                .collect::<Result<Vec<_>, String>>()?;
+            listed.entry(pid).or_default().push(blobs);
+            sizes.entry(pid).or_default().push(p.size);
+        }
+    }
+    let packs = pack_ids(storage);
+    let mut tree_packs = 0;
+    for pid in &packs {
+        let info = pack_verified(storage, key, pid)?;
+        if info.entries.iter().any(|e| e.tpe == BType::Tree) {
+            tree_packs += 1;
+        }
+        let raw_len = storage.get(FileType::Pack, &to_id(pid)).unwrap().len();
+        match listed.get(pid) {
+            None => {
+                if require_indexed {
+                    return Err(format!("pack {} is not listed by any index file", &hex::encode(pid)[..8]));
+                }
+            }
+            Some(listings) => {
+                let mut want: Vec<_> = info
+                    .entries
+                    .iter()
+                    .map(|e| (e.tpe, e.id, e.offset, e.length, e.uncompressed_length))
+                    .collect();
+                want.sort_by_key(|e| e.2);
+                for l in listings {
+                    // an unindexed pack that prune marked for deletion is listed without blobs
+                    if l.is_empty() && view.marked.contains_key(pid) {
+                        continue;
+                    }
+                    let mut have = l.clone();
+                    have.sort_by_key(|e| e.2);
+                    if have != want {
+                        return Err(format!(
+                            "pack {}: the index lists {} blobs, the pack's own trailer {} — or type/offset/length/uncompressed length differ",
+                            &hex::encode(pid)[..8],
+                            have.len(),
+                            want.len()
+                        ));
+                    }
+                }
+                for s in &sizes[pid] {
+                    if let Some(s) = s {
+                        if *s as usize != raw_len {
+                            return Err(format!("pack {}: the index records size {s}, the file has {raw_len} bytes", &hex::encode(pid)[..8]));
+                        }
+                    }
+                }
+            }
+        }
+    }
+    for pid in listed.keys() {
+        if !packs.contains(pid) {
+            return Err(format!("index lists pack {} which is not in storage", &hex::encode(pid)[..8]));
+        }
+    }
+    Ok((packs.len(), tree_packs))
+}
+
+pub fn run(c: &Case, _ctx: &Ctx) -> Outcome {
+    let mut out = Outcome::pass();
+    macro_rules! fail {
+        ($($arg:tt)*) => {{
+            out.failure = Some(format!($($arg)*));
+            return out;
+        }};
+    }
+    let key = c.cfg.key64();
+    let mut w = match World::new(&c.cfg, &c.tree) {
+        Ok(w) => w,
+        Err(e) => fail!("{e}"),
+    };
+    let first = HOp::Backup { edits: vec![], parent: false };
+    let mut non_backup_packs = false;
+    for (i, op) in std::iter::once(&first).chain(c.ops.iter()).enumerate() {
+        let before = w.packs();
+        if let Err(e) = w.step(op) {
+            fail!("op #{i} {}: {e}", super::c02::op_name(op));
+        }
+        if !matches!(op, HOp::Backup { .. } | HOp::DupBackup { .. } | HOp::CutBackup { .. }) && w.packs().difference(&before).next().is_some() {
+            non_backup_packs = true;
+        }
+        if let Err(e) = verify_packs(&w.storage, &key, false) {
+            fail!("after op #{i} {}: {e}", super::c02::op_name(op));
+        }
+    }
+    if w.live.is_empty() {
+        if let Err(e) = w.step(&first) {
+            fail!("{e}");
+        }
+    }
+    for ex in &c.extras {
+        let before = w.packs();
+        let snaps: Vec<_> = w.live.iter().map(|l| l.snap.clone()).collect();
+        match ex {
+            Extra::Copy => {
+                let dst = Storage::new();
+                if let Err(e) = init_repo(dst.handle(), &c.dst_cfg) {
+                    fail!("{e}");
+                }
+                if let Err(e) = cmds::copy_snapshots(&w.storage, &c.cfg, &dst, &c.dst_cfg, &snaps) {
+                    fail!("{e}");
+                }
+                match verify_packs(&dst, &c.dst_cfg.key64(), true) {
+                    Ok((n, _)) => {
+                        if n > 0 {
+                            non_backup_packs = true;
+                        }
+                    }
+                    Err(e) => fail!("destination of copy: {e}"),
+                }
+                out = out.class("copy");
+            }
+            Extra::Merge => {
+                let cmp = |a: &rustic_core::repofile::Node, b: &rustic_core::repofile::Node| a.meta.mtime.cmp(&b.meta.mtime);
+                match cmds::merge_snapshots(&w.storage, &c.cfg, &snaps, &cmp, w.clock + 7) {
+                    // the merged snapshot is not modelled here: remove it again
+                    Ok(s) => _ = w.storage.del(FileType::Snapshot, &rustic_core::Id::new(id_bytes(&s.id))),
+                    Err(e) => fail!("{e}"),
+                }
+                out = out.class("merge");
+            }
+            Extra::Rewrite(sel) => {
+                // exclude one existing basename
+                let names: Vec<String> = w
+                    .live
+                    .iter()
+                    .flat_map(|l| l.model.keys())
+                    .filter_map(|k| std::str::from_utf8(k).ok())
+                    .filter_map(|k| k.rsplit('/').next())
+                    .filter(|n| n.chars().all(|c| c.is_ascii_alphanumeric()) && *n != "s")
+                    .map(str::to_string)
+                    .collect();
+                if names.is_empty() {
+                    continue;
+                }
+                let mut topts = RewriteTreesOptions::default();
+                topts.excludes.globs = vec![format!("!{}", names[pick_idx(*sel, names.len())])];
+                let snaps_before: std::collections::BTreeSet<_> = w.storage.ids(FileType::Snapshot).into_iter().collect();
+                if let Err(e) = cmds::rewrite(&w.storage, &c.cfg, snaps, &RewriteOptions::default(), &topts) {
+                    fail!("{e}");
+                }
+                // rewritten snapshots are not modelled here: remove them again
+                for id in w.storage.ids(FileType::Snapshot) {
+                    if !snaps_before.contains(&id) {
+                        _ = w.storage.del(FileType::Snapshot, &id);
+                    }
+                }
+                out = out.class("rewrite");
+            }
+            Extra::Repair => {
+                if let Err(e) = cmds::repair_snapshots(&w.storage, &c.cfg, snaps, true, false) {
+                    fail!("{e}");
+                }
+                out = out.class("repair_snapshots");
+            }
+        }
+        if w.packs().difference(&before).next().is_some() {
+            non_backup_packs = true;
+        }
+        if let Err(e) = verify_packs(&w.storage, &key, false) {
+            fail!("after {ex:?}: {e}");
+        }
+    }
+
+    // delete a subset of the index files, rebuild, verify
+    let idx_ids = w.storage.ids(FileType::Index);
+    let mut deleted = 0;
+    for (i, id) in idx_ids.iter().enumerate() {
+        if c.del_mask == 0 || (c.del_mask >> (i % 16)) & 1 == 1 {
+            _ = w.storage.del(FileType::Index, id);
+            deleted += 1;
+        }
+    }
+    if let Err(e) = cmds::repair_index(&w.storage, &c.cfg, c.read_all, false) {
+        fail!("after deleting {deleted} of {} index files: {e}", idx_ids.len());
+    }
+    match verify_packs(&w.storage, &key, true) {
+        Ok((n, t)) => {
+            out = out.count("packs", n as u64).class_if(n >= 3 && t >= 1 && t < n, "both_pack_types");
+            out.nontrivial = n >= 3 && t >= 1 && t < n && non_backup_packs && deleted > 0;
+        }
+        Err(e) => fail!("after repair-index (deleted {deleted} of {} index files): {e}", idx_ids.len()),
+    }
+    if let Err(e) = w.verify_snapshots() {
+        fail!("after deleting {deleted} index files and repair-index: {e}");
+    }
+    match w.check(true) {
+        CheckVerdict::Errors(e) => fail!("after repair-index: {e}"),
+        CheckVerdict::Inconclusive(_) => out = out.class("check_inconclusive"),
+        CheckVerdict::Clean => {}
+    }
+    out.class_if(c.del_mask == 0, "all_index_files_deleted")
+        .class_if(non_backup_packs, "non_backup_packs")
+}
+
+// ------------------------------------------------------------------ header codec
+
+#[derive(Debug, Clone, Serialize, Deserialize)]
+pub struct HeaderCase {
+    /// (is_tree, compressed, length, uncompressed length, id seed)
+    pub entries: Vec<(bool, bool, u32, u32, u64)>,
+    /// repeat the entry list this many times (up to 10 000 entries)
+    pub repeat: u16,
+}
+
+fn header_strategy(_ctx: &Ctx) -> BoxedStrategy<HeaderCase> {
+    (
+        prop::collection::vec(
+            (
+                any::<bool>(),
+                any::<bool>(),
+                prop_oneof![Just(0u32), Just(32u32), 33u32..100_000, Just(u32::MAX / 20_000)],
+                prop_oneof![Just(1u32), 1u32..1_000_000, Just(u32::MAX)],
+                any::<u64>(),
+            ),
+            0..12,
+        ),
+        prop_oneof![8 => 1u16..4, 1 => 100u16..1000],
+    )
+        .prop_map(|(entries, repeat)| HeaderCase { entries, repeat })
+        .boxed()
+}
+
+fn run_header(c: &HeaderCase, _ctx: &Ctx) -> Outcome {
+    // one type per pack, as the library writes them
+    let tree = c.entries.first().is_some_and(|e| e.0);
+    let mut entries: Vec<TrailerEntry> = Vec::new();
+    let mut offset: u64 = 0;
+    'outer: for r in 0..c.repeat {
+        for (_, comp, len, ul, seed) in &c.entries {
+            if entries.len() >= 10_000 || offset + u64::from(*len) > u64::from(u32::MAX) {
+                break 'outer;
+            }
+            let mut id = [0u8; 32];
+            id[..8].copy_from_slice(&seed.to_le_bytes());
+            id[8..10].copy_from_slice(&r.to_le_bytes());
+            entries.push(TrailerEntry {
+                tpe: if tree { BType::Tree } else { BType::Data },
+                id,
+                offset: offset as u32,
+                length: *len,
+                uncompressed_length: comp.then_some((*ul).max(1)),
+            });
+            offset += u64::from(*len);
+        }
+    }
+    let mine = header_plain(&entries);
+    // library: parse my bytes
+    let parsed = match guarded(|| rustic_core::verif::pack_header_from_binary(&mine)) {
+        Ok(Ok(p)) => p,
+        Ok(Err(e)) => return Outcome::fail(format!("library refuses a well-formed pack header: {}", e.display_log())),
+        Err(p) => return Outcome::fail(format!("library panicked on a well-formed pack header: {p}")),
+    };
+    let as_entries = |blobs: &[IndexBlob]| -> Vec<TrailerEntry> {
+        blobs
+            .iter()
+            .map(|b| {
+                let v = serde_json::to_value(b).unwrap();
+                TrailerEntry {
+                    tpe: BType::parse(v["type"].as_str().unwrap()).unwrap(),
+                    id: parse_id(v["id"].as_str().unwrap()).unwrap(),
+                    offset: v["offset"].as_u64().unwrap() as u32,
+                    length: v["length"].as_u64().unwrap() as u32,
+                    uncompressed_length: v["uncompressed_length"].as_u64().map(|x| x as u32),
+                }
+            })
+            .collect()
+    };
+    if as_entries(&parsed) != entries {
+        return Outcome::fail("library decodes a pack header differently from the format description");
+    }
+    // library: encode, I parse
+    let theirs = match guarded(|| rustic_core::verif::pack_header_to_binary(&parsed)) {
+        Ok(Ok(b)) => b,
+        Ok(Err(e)) => return Outcome::fail(format!("library cannot encode a pack header: {}", e.display_log())),
+        Err(p) => return Outcome::fail(format!("library panicked encoding a pack header: {p}")),
+    };
+    if theirs != mine {
+        return Outcome::fail("library encodes a pack header differently from the format description");
+    }
+    match parse_header_plain(&theirs) {
+        Ok(e) if e == entries => {}
+        _ => return Outcome::fail("independent decoder disagrees on the library's pack header"),
+    }
+    let (hsize, psize) = rustic_core::verif::pack_header_sizes(&parsed);
+    let want_h = 32 + mine.len() as u64;
+    let want_p = want_h + 4 + offset;
+    if u64::from(hsize) != want_h || u64::from(psize) != want_p {
+        return Outcome::fail(format!("header/pack size computed as {hsize}/{psize}, the format gives {want_h}/{want_p}"));
+    }
+    Outcome::pass()
+        .nontrivial(entries.len() >= 2)
+        .class_if(entries.is_empty(), "no_entries")
+        .class_if(entries.len() >= 1000, ">=1000_entries")
+}
 
 pub fn spec() -> PropSpec {
     PropSpec {
         id: "C08",
         level: "exploration",
-        rule: "",
-        assumptions: vec![],
-        subs: vec![],
+        rule: "packs: proptest histories (1–6 quick / 1–12 thorough operations after an initial backup: backup, forget, prune with all options incl. fast and re-encoding repack, repack-all, repack-uncompressed; two-handle backups, duplicated index files, interrupted backups) followed by 0–2 of {copy into a second repository, merge, rewrite with an exclude, repair snapshots}, then deletion of a generated subset of index files (all with probability 2/5) and repair-index (read-all with probability 1/5). Non-trivial = ≥3 packs of both types, at least one pack produced by a non-backup command, ≥1 index file deleted. header: 0–11 generated entries repeated up to 10 000 entries, lengths incl. 0 and large, compressed and not. Distinct by hash of the case.",
+        assumptions: vec![
+            "the independent decoder (vpcore::fmt) implements the restic pack layout: blobs, encrypted header, u32 LE header length",
+            "an unindexed pack that a non-instant prune marks for deletion is listed without blobs: accepted as such",
+        ],
+        subs: vec![
+            Box::new(Sub {
+                name: "packs",
+                cases_quick: 300,
+                cases_thorough: 8000,
+                max_shrink_iters: 200,
+                strategy,
+                run,
+            }) as Box<dyn DynSub>,
+            Box::new(Sub {
+                name: "header",
+                cases_quick: 20_000,
+                cases_thorough: 1_000_000,
+                max_shrink_iters: 2000,
+                strategy: header_strategy,
+                run: run_header,
+            }),
+        ],
         extra: None,
     }
 }
